@@ -108,7 +108,7 @@ pub struct Cfg {
     pub burst_max: u32,
 }
 
-const SPECIAL_L: [usize; 15] = [0, 1, 2, 3, 5, 6, 7, 8, 255, 256, 511, 512, 1021, 1022, 1023];
+const SPECIAL_L: [usize; 24] = [0, 1, 2, 3, 4, 5, 6, 7, 8, 15, 16, 32, 64, 127, 128, 255, 256, 257, 511, 512, 1020, 1021, 1022, 1023];
 const BAUDS: [u32; 7] = [9600, 19200, 38400, 57600, 115200, 460800, 921600];
 const READ_LIMITS: [usize; 9] = [1, 2, 3, 7, 16, 64, 256, 4096, usize::MAX];
 const CHUNK_MEANS: [f64; 5] = [1.5, 4.0, 32.0, 300.0, 2000.0];
@@ -374,6 +374,23 @@ fn gen_foreign(cfg: &Cfg, r: &mut Rng) -> Item {
     let l = pick_l(r, cfg.small_l_bias);
     let reserved = if r.chance(0.5) { 0 } else { r.range(1, 63) as u8 };
     let (p, class) = foreign_payload(r, l);
+    // rare coincidences nobody samples by accident: a valid frame whose checksum is all zeros,
+    // all ones, starts with 0xD3 (so the frame's tail looks like the next preamble/header), or
+    // equals its own first payload bytes
+    if l >= 3 && r.chance(0.08) {
+        let target: u32 = match r.below(7) {
+            0 => 0x000000,
+            1 => 0xFFFFFF,
+            2 => 0xD30000,
+            3 => 0xD30000 | r.below(0x400) as u32,
+            4 => 0xD3D3D3,
+            5 => 0x00D300 | r.below(4) as u32,
+            _ => ((p[0] as u32) << 16) | ((p[1] as u32) << 8) | p[2] as u32,
+        };
+        if let Some(f) = crate::refmodel::make_frame_with_crc(reserved, &p, target) {
+            return Item::new(format!("foreign:L={},r={},crc={:06x}", l, reserved, target), "foreign", f, true);
+        }
+    }
     Item::new(format!("foreign:L={},r={},{}", l, reserved, class), "foreign", make_frame(reserved, &p), true)
 }
 
